@@ -45,7 +45,7 @@ def one_job(prop, name, m):
         else:
             path = os.path.join(repo, m["file"])
             text = open(path).read()
-            if text.count(m["find"]) != 1:
+            if text.count(m["find"]) != 1 and not (m.get("replace_all") and text.count(m["find"]) > 1):
                 return "%-5s %-45s ANCHOR-NOT-UNIQUE (%d)" % (prop, name, text.count(m["find"])), 1
             open(path, "w").write(text.replace(m["find"], m["replace"]))
         rc, out = run_check(prop, repo)
@@ -109,7 +109,7 @@ def main():
             else:
                 path = os.path.join(repo, m["file"])
                 text = open(path).read()
-                if text.count(m["find"]) != 1:
+                if text.count(m["find"]) != 1 and not (m.get("replace_all") and text.count(m["find"]) > 1):
                     print("%-5s %-45s ANCHOR-NOT-UNIQUE (%d)" % (prop, name, text.count(m["find"]))); bad += 1; continue
                 open(path, "w").write(text.replace(m["find"], m["replace"]))
             rc, out = run_check(prop, repo)
